@@ -1794,7 +1794,12 @@ def _lincomb_impl(a, x1, b, x2, out):
 
     if size < THRESHOLD_SMALL:
         # Faster for small arrays
-        out.data[:] = a * x1.data + b * x2.data
+        if a == 0 and b == 0:
+            # Zero assignment, must not depend on the operands (which may
+            # be `out` itself with arbitrary contents)
+            out.data[:] = 0
+        else:
+            out.data[:] = a * x1.data + b * x2.data
         return
 
     elif (size < THRESHOLD_MEDIUM or
